@@ -16,6 +16,7 @@
    because the position-zero check of the code applies `~` to the raw argument).
 
    Strings are byte lists.  Only definitions here. *)
+From Coq Require Import String Ascii.
 From Coq Require Import List ZArith Bool Lia.
 From TskVerif Require Import Base.Common Gen.Generated.
 Import ListNotations.
@@ -281,6 +282,18 @@ Definition chrom_line (names : list bytes) : bytes :=
                  [81; 85; 65; 76]; [70; 73; 76; 84; 69; 82]; [73; 78; 70; 79]; [70; 79; 82; 77; 65; 84];
                  join_with TAB names].
 
+Definition sb (s : string) : bytes :=
+  map (fun a => Z.of_N (N_of_ascii a)) (list_ascii_of_string s).
+
+(* __write_header (l.192-216), line by line; [version] = provenance.__version__ *)
+Definition vcf_header (version contig_id : bytes) (contig_len : Z) (names : list bytes) : list bytes :=
+  [ sb "##fileformat=VCFv4.2";
+    sb "##source=tskit " ++ version;
+    sb "##FILTER=<ID=PASS,Description=""All filters passed"">";
+    sb "##contig=<ID=" ++ contig_id ++ sb ",length=" ++ dec contig_len ++ sb ">";
+    sb "##FORMAT=<ID=GT,Number=1,Type=String,Description=""Genotype"">";
+    chrom_line names ].
+
 (* legacy_position_transform (l.32-45) on already rounded positions *)
 Fixpoint legacy_transform (last : Z) (rounded : list Z) : list Z :=
   match rounded with
@@ -321,6 +334,17 @@ Fixpoint chunk (fuel : nat) (p : nat) (l : list Z) : list (list Z) :=
   | S f => match l with [] => [] | _ => firstn p l :: chunk f p (skipn p l) end
   end.
 
+(* `if len(is_sample) != 1` (pinned: an individual of non-sample nodes only is accepted) or,
+   with the repair fixes/C16-individuals-must-be-samples.diff, `if is_sample != {True}`;
+   selected by the regenerated fact *)
+Definition individual_rejected (flags : list bool) : bool :=
+  if c16_individuals_must_be_samples then existsb negb flags
+  else existsb (fun b => b) flags && existsb negb flags.
+
+(* no sample nodes: `individuals[0]` on the empty np.unique result (IndexError, pinned) or,
+   with the repair fixes/C16-zero-samples-valueerror.diff, a ValueError *)
+Definition zero_samples_error : Z := if c16_zero_samples_rejected then E_VALUE else E_INDEX.
+
 Fixpoint groups_of_individuals (nodes : list node_info) (num_individuals : Z) (inds : list Z)
   : res (list (list Z)) :=
   match inds with
@@ -332,7 +356,7 @@ Fixpoint groups_of_individuals (nodes : list node_info) (num_individuals : Z) (i
       | [] => Err E_VALUE                                            (* not associated with a node *)
       | _ =>
         let flags := map (fun u => match nth_error nodes (Z.to_nat u) with Some (s, _) => s | None => false end) ns in
-        if existsb (fun b => b) flags && existsb negb flags then Err E_VALUE   (* sample and non-samples *)
+        if individual_rejected flags then Err E_VALUE   (* sample and non-samples *)
         else do r <- groups_of_individuals nodes num_individuals t; Ok (ns :: r)
       end
   end.
@@ -348,7 +372,7 @@ Definition make_sample_mapping (nodes : list node_info) (num_individuals : Z)
                    let u := unique_sorted (map (fun s => match nth_error nodes (Z.to_nat s) with
                                                          | Some (_, i) => i | None => -1 end) samples) in
                    match u with
-                   | [] => Err E_INDEX                 (* individuals[0] on an empty array *)
+                   | [] => Err zero_samples_error      (* no samples: see zero_samples_error *)
                    | [i] => if i =? -1 then Ok None else Ok (Some u)
                    | i :: _ => if i =? -1 then Err E_VALUE else Ok (Some u)
                    end
